@@ -334,6 +334,16 @@ SPEC_PICTURE = {
     ).items())),
     'flags': {'Ok.Some.Picture.3|flags': {'': _STD, 'r9.0': _STD, 'r10.0': _PLUS}},
     'skip': ['Ok.Some.Picture.13'],          # reference_picture_resampling: decode_rprp never succeeds
+    # what the sub-parsers that take more than the reader are handed (rule G): argument position -> {value: condition}
+    'args': {
+        # OPPTYPE semantics need the decoder options and the options in force in the previous picture (none: the empty set)
+        'decode_plusptype': {1: {'decoder_options': _PLUS}, 2: 'PREVIOUS_OPTIONS'},
+        # RLNUM is present iff PLUSPTYPE announced it: the follower set of this picture's PLUSPTYPE, empty without PLUSPTYPE
+        'decode_elnum_rlnum': {1: {'r10.3': _PLUS + ' & `decoder_options has USE_SCALABILITY_MODE`', 'empty()': _NOPLUS + ' & `decoder_options has USE_SCALABILITY_MODE`'}},
+        # 5.1.22: TRB is 5 bits iff a custom picture clock frequency is in use (CPCFC present in this header), 3 bits otherwise
+        'decode_trb': {1: {'1': '%s & r10.2 is PbFrame/ImprovedPbFrame & `r10.3 has HAS_CUSTOM_CLOCK`' % _PLUS,
+                           '0': '%s & r10.2 is PbFrame/ImprovedPbFrame & !`r10.3 has HAS_CUSTOM_CLOCK` | %s & r9.1.as1.0.1 is PbFrame/ImprovedPbFrame' % (_PLUS, _NOPLUS)}},
+    },
 }
 
 
@@ -617,6 +627,71 @@ def pei(ck, F):
         ck.ok('L', 'decode_pei: flag bit r1; r1=1 -> push(read_u8) and repeat; r1=0 -> Ok(bytes)', where_of(b))
 
 
+def picture_args(ck, F, T, name, b, spec, rename):
+    """rule G: every header sub-parser called with more than the reader gets, under each condition, the value the header syntax ties it to"""
+    from ..dataflow import expr_of, expr_str
+    ck.rule('G', 'the sub-parsers of decode_picture that take more than the reader (decode_plusptype: decoder options and the previous picture\'s options; '
+                 'decode_elnum_rlnum: the follower set of this PLUSPTYPE; decode_trb: "custom picture clock in use" = CPCFC present) are handed exactly those values')
+    oidx = PICTURE_FIELDS.index('options')
+    seen = {}
+    class _P_:
+        def __init__(s, rows): s.rows = rows
+        def __getattr__(s, k): return getattr(T, k)
+        def return_rows(s): return s.rows
+    for bb, t in T.g.calls():
+        cn = F.callee_name(t)
+        if not cn.startswith(P.replace('h263_rs::', '')) and not cn.startswith(P): continue
+        short = cn.rsplit('::', 1)[-1].split('#')[0]
+        if len(t['args']) < 2 or not short.startswith('decode_'): continue
+        want = spec.get(short)
+        if want is None:
+            ck.violation('G', 'G : decode_picture : %s' % short, where_of(b, bb), '%s is called with %d arguments beyond the reader; the table has no entry for it' % (short, len(t['args']) - 1)); continue
+        seen[short] = seen.get(short, 0) + 1
+        for k, a in enumerate(t['args'][1:], 1):
+            w = want.get(k)
+            key = '%s argument %d' % (short, k)
+            if w is None:
+                ck.violation('G', 'G : decode_picture : %s' % key, where_of(b, bb), 'no entry for this argument'); continue
+            rows = T.value_rows([(T.ex(a), bb)])
+            flat = {}
+            for pth, d in rows.items():
+                for v, c in d.items():
+                    if pth.endswith('|flags'):
+                        if v: flat['<set containing %s>' % v] = c       # a flag set built in place: not one of the accepted values
+                        continue
+                    flat[(pth + '=' if pth else '') + v] = c
+            if w == 'PREVIOUS_OPTIONS':
+                pc = T.pc(bb)
+                ok = False
+                if len(flat) == 1:
+                    m = re.match(r'^unwrap_or_else\(map\(previous_picture, \{closure#(\d+)\}\), fn empty\)$', list(flat)[0])
+                    if m:
+                        try:
+                            cb = F.body('%s::{closure#%s}' % (name, m.group(1)))
+                            ce = expr_of(F, cb, {'o': 'copy', 'p': {'l': 0, 'proj': []}})
+                            ok = ce == ('param', 2, (oidx,)) and dnf_diff(list(flat.values())[0], pc) is None
+                            if not ok: bad = 'the closure returns %s, expected p.options' % expr_str(ce, cb.get('debug', {}))
+                        except (KeyError, Unanalysable) as e:
+                            bad = str(e)
+                if not ok and len(flat) != 1:
+                    # written out: match previous_picture { Some(p) => p.options, None => empty() }
+                    try:
+                        w2 = {'previous_picture.as1.0.%d' % oidx: '(%s) & previous_picture is Some' % _PLUS, 'empty()': '(%s) & previous_picture is None' % _PLUS}
+                        ok = set(flat) == set(w2) and all(dnf_diff(parse(c, T, rename), flat[v]) is None for v, c in w2.items())
+                    except (ValueError, KeyError, TooBig):
+                        ok = False
+                    bad = 'it is %s' % {v: fmt_cond(c) for v, c in flat.items()}
+                elif not ok and 'bad' not in dir():
+                    bad = 'it is %s' % {v: fmt_cond(c) for v, c in flat.items()}
+                if ok: ck.ok('G', '%s = the previous picture\'s options, the empty set when there is none' % key, where_of(b, bb))
+                else: ck.violation('G', 'G : decode_picture : %s' % key, where_of(b, bb), '%s must be previous_picture.options (empty without a previous picture): %s' % (key, bad))
+                continue
+            compare_rows(ck, _P_({key: flat}), 'decode_picture', {key: w}, rename, b)
+    for short in spec:
+        if seen.get(short, 0) != 1:
+            ck.violation('G', 'G : decode_picture : %s calls' % short, where_of(b), 'expected one call of %s, found %d' % (short, seen.get(short, 0)))
+
+
 def picture(ck, F):
     name = P + 'decode_picture::{closure#0}'
     b = F.body(name); T = Table(F, name)
@@ -659,6 +734,7 @@ def picture(ck, F):
     if rename is None: return
     ret = dict(spec['ret']); ret.update(spec['flags'])
     compare_rows(ck, T, fn, ret, rename, b, skip=[re.sub(r'\br(\d+)\b', lambda m: 'r%d' % rename[int(m.group(1))], s) for s in spec['skip']])
+    picture_args(ck, F, T, name, b, spec['args'], rename)
     # the start code must be present: `ok_or(MiddleOfBitstream)?` on the recogniser's result is part of read 2's width text (checked above)
     ck.count('decode_picture consuming calls', len(T.reads))
     ck.floor('decode_picture consuming calls', len(T.reads), 26)
